@@ -34,6 +34,18 @@ def Tup(*items, tag=None, fields=None):
     return TTup(items, tag=tag, fields=fields)
 
 
+def qf(spec):
+    """Mark a clause as provable from the quantifier-free hypotheses alone (string identities etc.): quantified
+    hypotheses are DROPPED for its obligations (sound: fewer hypotheses), which keeps the query small."""
+    if callable(spec):
+        def f(c):
+            return spec(c)
+        f._qf_only = True
+        f.__name__ = getattr(spec, "__name__", "clause")
+        return f
+    raise TypeError("qf() wraps callable clauses")
+
+
 class Contract:
     def __init__(self, fq, *, prop, types=None, result=None, requires=(), ensures=None, raises=None,
                  modifies=(), loops=None, locals=None, calls=None, globals=None, classes=None, ghost=None,
